@@ -27,6 +27,7 @@ func checkC13(c *Ctx) {
 	r.Rule("R13.3", "counts: Dump = Walk's count; Walk +1 per successful callback; Restore +1 per stored record", 9)
 	r.Rule("R13.4", "Restore indexes the entry by its own key like Write", 3)
 	r.Rule("R13.5", "the expiry survives accessor round trips: ts is UnixNano and tsTime its exact inverse (also for 0)", 2)
+	r.Rule("R13.7", "relay through HTTPTransfer.Import pairs every dump with the cache it was requested for (obligations of C14 R14.2)", 2)
 	r.Rule("R13.6", "dumped keys are the stored (private) keys; GobRegister registers the given value itself with encoding/gob", 3)
 	r.NotDecided = []string{"encoding/gob's own behaviour", "round-trip equality of values", "partial import on a broken stream"}
 	info := c.Pkg.TypesInfo
@@ -190,6 +191,12 @@ func checkC13(c *Ctx) {
 		c.withAlias(map[string]string{"R07.1": "R13.4"}, func() { c.c13RestoreIndex(b) })
 	}
 	c.c13ShardMaps()
+	c.c13Adapter()
+	// relaying caches through HTTPTransfer: each fetched dump is restored into the cache it was requested for (C14 R14.2)
+	c.borrow("C14", func() {
+		c.c14Import()
+		c.rangeVarCapturedByGo("R14.2", func(name string) bool { return strings.HasPrefix(name, "HTTPTransfer.") })
+	}, func(o *coreObl) (string, bool) { return "R13.7", o.Rule == "R14.2" })
 	// what Dump walks after an ExpireAll are the replacement entries: they keep key and value
 	for _, b := range backends {
 		c.replacedEntryKeeps(b, "R13.6", "K", "V")
@@ -216,6 +223,78 @@ func (c *Ctx) c13RestoreIndex(b BK) {
 		}
 	}
 	r.Obls = append(save, keep...)
+}
+
+// aliasesErr: a is b or a wrap of b through fmt.Errorf.
+func aliasesErr(a, b *pw.Val) bool {
+	if a == b {
+		return true
+	}
+	if a != nil && a.Kind == pw.KCall && a.Ev != nil && a.Ev.Callee != nil && pw.FuncName(a.Ev.Callee) == "fmt.Errorf" {
+		for _, x := range a.Ev.Args {
+			if x == b {
+				return true
+			}
+			for _, el := range x.Elems {
+				if el == b {
+					return true
+				}
+			}
+		}
+	}
+	return false
+}
+
+// c13Adapter: the WalkDumpRestorer adapter of the generic map dumps and restores through the map's own Dump/Restore (the typed wire
+// format): its Dumper and Restorer are the map itself.
+func (c *Ctx) c13Adapter() {
+	r := c.R
+	name := "ShardedMapOf.WalkDumpRestorer"
+	e, paths, _, err := c.runFunc(name, pw.Policy{Inline: inlineUnexported, MaxDepth: 2})
+	if err != nil {
+		r.Unknown("R13.2", name, err.Error())
+		return
+	}
+	var recv *pw.Val
+	for obj, v := range e.Params {
+		if namedTypeName(obj.Type()) == "ShardedMapOf" {
+			recv = v
+		}
+	}
+	bad := false
+	for _, p := range paths {
+		got := map[string]*pw.Val{}
+		for _, ev := range p.Events {
+			if ev.Kind == pw.EvFieldWrite && ev.Field != nil && (ev.Field.Name() == "Dumper" || ev.Field.Name() == "Restorer") {
+				got[ev.Field.Name()] = ev.Value
+			}
+		}
+		if len(p.Ret) == 1 {
+			if lit := pointee(p.Ret[0]); lit != nil && lit.Kind == pw.KAlloc {
+				for _, f := range []string{"Dumper", "Restorer"} {
+					if fv := lit.Fields[f]; fv != nil && got[f] == nil {
+						got[f] = fv
+					}
+				}
+			}
+		}
+		for _, f := range []string{"Dumper", "Restorer"} {
+			v := got[f]
+			for v != nil && v.Kind == pw.KConv {
+				v = v.Src
+			}
+			if v == nil || recv == nil || v != recv {
+				bad = true
+				r.Bad("R13.2", name, "adapter-"+strings.ToLower(f), c.Pos(p.RetPos), "the adapter's "+f+" is not the generic map itself: dumps taken through the adapter are not in the wire format the map's Restore reads (and typed nil values do not survive an interface{} field)", shortTrace(p))
+			}
+		}
+		if bad {
+			break
+		}
+	}
+	if !bad {
+		r.OK("R13.2", name, "Dumper and Restorer are the map itself")
+	}
 }
 
 // c13ShardMaps: Restore (like Write) inserts into a shard's map without a nil check, so the map of a shard is only ever assigned a
@@ -534,6 +613,7 @@ func (c *Ctx) c13Counts(b BK, decodeTarget types.Object) {
 				}
 			}
 			n++
+			_ = 0
 			for _, ev := range g.events {
 				if ev.Kind == pw.EvCall && strings.HasSuffix(ev.Role, "gob.Decoder.Decode") && len(ev.Results) == 1 && nilTri(p, ev.Results[0]) == triTrue && stores == 0 {
 					r.Bad("R13.3", rname, "decoded-record-dropped", c.Pos(g.begin.Pos), "a record that was decoded successfully is not stored: the restored cache misses entries of the dump", shortTrace(p))
@@ -544,6 +624,31 @@ func (c *Ctx) c13Counts(b BK, decodeTarget types.Object) {
 				r.Bad("R13.3", rname, "restore-count", c.Pos(g.begin.Pos), fmt.Sprintf("iteration stores %d records and increments the counter %d times", stores, incs), shortTrace(p))
 				bad = true
 			}
+		}
+	}
+	// the end of the input is not an error: an error returned by Restore has been found not to be io.EOF on that path (the dump of an
+	// empty cache is zero bytes: it restores to (0, nil))
+	for _, p := range run.paths {
+		if len(p.Ret) != 2 {
+			continue
+		}
+		if isNil, known := p.NilFact(p.Ret[1]); !known || isNil {
+			continue
+		}
+		notEOF := false
+		for _, ev := range p.Events {
+			if ev.Kind == pw.EvCall && ev.Callee != nil && pw.FuncName(ev.Callee) == "errors.Is" && len(ev.Args) == 2 && len(ev.Results) == 1 {
+				if a := ev.Args[1]; a != nil && a.Obj != nil && a.Obj.Name() == "EOF" {
+					if t, known := p.Truth(ev.Results[0]); known && !t && (ev.Args[0] == p.Ret[1] || aliasesErr(p.Ret[1], ev.Args[0])) {
+						notEOF = true
+					}
+				}
+			}
+		}
+		if !notEOF {
+			r.Bad("R13.3", rname, "eof-returned-as-error", c.Pos(p.RetPos), "Restore returns an error that was not found to differ from io.EOF: the end of the dump (e.g. the empty dump of an empty cache) is reported as a failure", shortTrace(p))
+			bad = true
+			break
 		}
 	}
 	if n == 0 {
